@@ -1317,14 +1317,24 @@ where
                             .flat_map(|emit| match emit {
                                 RefinedTsTypeElement::MethodSignature(TsMethodSignature {
                                     key,
+                                    computed,
                                     ..
                                 })
                                 | RefinedTsTypeElement::Property(TsPropertySignature {
-                                    key, ..
+                                    key,
+                                    computed,
+                                    ..
                                 }) => match &*key {
-                                    Expr::Ident(ident) => vec![ident.sym.clone()],
+                                    // (`[key]: []` names the event by the value of `key`)
+                                    Expr::Ident(ident) if !computed => vec![ident.sym.clone()],
                                     Expr::Lit(Lit::Str(str)) => vec![str.value.clone()],
-                                    _ => vec![],
+                                    Expr::Lit(Lit::Num(num)) => vec![Atom::from(num.value.to_string())],
+                                    key => {
+                                        HANDLER.with(|handler| {
+                                            handler.span_err(key.span(), "Unsupported event name.")
+                                        });
+                                        vec![]
+                                    }
                                 },
                                 RefinedTsTypeElement::CallSignature(TsCallSignatureDecl {
                                     params,
